@@ -192,6 +192,7 @@ BTreeItems_seek(BTreeItems *self, Py_ssize_t i)
         /* Move to end of previous bucket. */
         if (currentbucket == self->firstbucket)
             goto no_match;
+        VERIF_PROBE(7);
         status = PreviousBucket(&currentbucket, self->firstbucket);
         if (status == 0)
             goto no_match;
@@ -215,6 +216,7 @@ BTreeItems_seek(BTreeItems *self, Py_ssize_t i)
     PER_UNUSE(currentbucket);
     if (error)
     {
+        VERIF_PROBE(9);
         PyErr_SetString(PyExc_RuntimeError,
                         "the bucket being iterated changed size");
         return -1;
@@ -698,6 +700,7 @@ BTreeIter_next(BTreeIter *bi, PyObject *args)
         /* We never leave this routine normally with i >= len:  somebody
             * else mutated the current bucket.
             */
+        VERIF_PROBE(8);
         PyErr_SetString(PyExc_RuntimeError,
                     "the bucket being iterated changed size");
         /* Arrange for that this error is sticky too. */
